@@ -12,9 +12,12 @@
                                               Connect(h, inner)  CONNECT h, then (inner = "tls") a TLS handshake
                                               Inner              a request inside the CONNECT tunnel
      other modes (transparent, socks5, reverse_http, reverse_https):  Plain(1) / StartTls, Inner
+   Every request has a flavour f in Flavours (plain GET, WebSocket opening handshake, POST with body, HEAD,
+   Expect: 100-continue, Upgrade: h2c; every one is answered 200): in this code the flavour does not change where the
+   request goes, so it only appears in the records.
    Every step emits the request heads the upstream peers will read (CONNECT heads included), in order.          *)
 EXTENDS Mon_UpstreamAuth, TLC
-CONSTANTS Modes, MaxSteps, Hosts, Ports
+CONSTANTS Modes, MaxSteps, Hosts, Ports, Flavours
 VARIABLES mode, auth, eager, phase, host, opened, steps, mon, obs
 vars == <<mode, auth, eager, phase, host, opened, steps, mon, obs>>
 
@@ -35,41 +38,42 @@ Init == /\ mode \in Modes /\ auth \in BOOLEAN /\ eager \in BOOLEAN
 Live == mon.bad = <<>> /\ steps < MaxSteps
 Emit(evs) == obs' = evs /\ mon' = FoldEvents(MonStep, mon, evs)
 
-Req(peer, level, kind, scheme, tls, cred) ==
+Req(peer, level, kind, scheme, tls, cred, src, f) ==
   [k |-> "req", mode |-> PMode, auth |-> auth, peer |-> peer, level |-> level, kind |-> kind, scheme |-> scheme,
-   tls |-> tls, cred |-> cred]
+   tls |-> tls, cred |-> cred, src |-> src, fl |-> f]
 
 \* HttpUpstreamProxy.start_handshake: CONNECT to the upstream proxy; http_connect_upstream adds the credentials
-ConnectHead == Req("proxy", "outer", "connect", "", ProxyTls, auth)
+ConnectHead(src) == Req("proxy", "outer", "connect", "", ProxyTls, auth, src, "")
 
 \* heads caused by one request to host h with destination TLS x, issued in the HttpLayer of the current phase.
 \*   outerLayer: the request is handled by the HttpLayer that talks to the client as an explicit proxy
 \*   key: the connection the request needs; it is reused if it is in opened
-Heads(h, x, outerLayer, key) ==
+Heads(h, x, outerLayer, key, f) ==
+  LET src == IF Explicit THEN (IF outerLayer THEN "proxy_request" ELSE "client_tunnel") ELSE "direct" IN
   IF Up THEN
     IF ~x /\ outerLayer
       THEN \* plain absolute-form request forwarded to the proxy without CONNECT; requestheaders adds the credentials
-           <<Req("proxy", "outer", "absolute", "http", ProxyTls, auth)>>
-      ELSE (IF key \in opened THEN <<>> ELSE <<ConnectHead>>)
+           <<Req("proxy", "outer", "absolute", "http", ProxyTls, auth, src, f)>>
+      ELSE (IF key \in opened THEN <<>> ELSE <<ConnectHead(src)>>)
            \o <<Req("proxy", "tunnel", IF outerLayer THEN "absolute" ELSE "origin", IF outerLayer THEN "https" ELSE "",
-                    x, IF x THEN FALSE ELSE auth /\ TunnelPlainGetsHeader)>>
-  ELSE IF Rev THEN <<Req("target", "outer", "origin", "", mode = "reverse_https", auth)>>   \* Authorization header
-  ELSE <<Req("origin", "outer", "origin", "", x, FALSE)>>
+                    x, IF x THEN FALSE ELSE auth /\ TunnelPlainGetsHeader, src, f)>>
+  ELSE IF Rev THEN <<Req("target", "outer", "origin", "", mode = "reverse_https", auth, src, f)>>   \* Authorization header
+  ELSE <<Req("origin", "outer", "origin", "", x, FALSE, src, f)>>
 
 Step == steps' = steps + 1 /\ UNCHANGED <<mode, auth, eager>>
 
 \* connection_spec_matches compares address (host, port), tls, via: a pooled connection is the triple <<h, p, tls>>
-Plain(h, p) ==
+Plain(h, p, f) ==
   /\ Live /\ (IF Explicit THEN phase = "fresh" ELSE phase \in {"fresh", "plain"} /\ h = 1 /\ p = 80)
-  /\ Emit(Heads(h, FALSE, TRUE, <<h, p, FALSE>>))
+  /\ Emit(Heads(h, FALSE, TRUE, <<h, p, FALSE>>, f))
   /\ opened' = opened \cup {<<h, p, FALSE>>}
   /\ phase' = IF Explicit THEN phase ELSE "plain"
   /\ host' = IF Explicit THEN host ELSE 1
   /\ Step
 
-AbsHttps(h, p) ==
+AbsHttps(h, p, f) ==
   /\ Live /\ Explicit /\ phase = "fresh"
-  /\ Emit(Heads(h, TRUE, TRUE, <<h, p, TRUE>>))
+  /\ Emit(Heads(h, TRUE, TRUE, <<h, p, TRUE>>, f))
   /\ opened' = opened \cup {<<h, p, TRUE>>}
   /\ UNCHANGED <<phase, host>> /\ Step
 
@@ -82,7 +86,7 @@ Connect(h, inner) ==
   /\ phase' = IF inner = "tls" THEN "tun_tls" ELSE "tun_plain"
   /\ host' = h
   /\ IF Up /\ eager /\ inner = "tls"
-       THEN Emit(<<ConnectHead>>) /\ opened' = {<<h, 443, TRUE>>}
+       THEN Emit(<<ConnectHead("client_tunnel")>>) /\ opened' = {<<h, 443, TRUE>>}
        ELSE Emit(<<>>) /\ opened' = {}
   /\ Step
 
@@ -90,19 +94,19 @@ StartTls ==
   /\ Live /\ ~Explicit /\ phase = "fresh"
   /\ phase' = "tls" /\ host' = 1 /\ Emit(<<>>) /\ UNCHANGED opened /\ Step
 
-Inner ==
+Inner(f) ==
   /\ Live /\ phase \in {"tun_tls", "tun_plain", "tls"}
   /\ LET x == phase \in {"tun_tls", "tls"}
          key == <<host, IF x THEN 443 ELSE 80, x>> IN
-     /\ Emit(Heads(host, x, FALSE, key))
+     /\ Emit(Heads(host, x, FALSE, key, f))
      /\ opened' = opened \cup {key}
   /\ UNCHANGED <<phase, host>> /\ Step
 
-Next == \/ \E h \in Hosts, p \in Ports : Plain(h, p)
-        \/ \E h \in Hosts, p \in Ports : AbsHttps(h, p)
+Next == \/ \E h \in Hosts, p \in Ports, f \in Flavours : Plain(h, p, f)
+        \/ \E h \in Hosts, p \in Ports, f \in Flavours : AbsHttps(h, p, f)
         \/ \E h \in Hosts, inner \in {"tls", "plain"} : Connect(h, inner)
         \/ StartTls
-        \/ Inner
+        \/ \E f \in Flavours : Inner(f)
 Spec == Init /\ [][Next]_vars
 Report == mon.bad # <<>> => PrintT(<<"BAD", mon.bad>>)
 =============================================================================
